@@ -41,4 +41,14 @@ def instances(tier):
                 continue  # no areas: the register count is irrelevant (checked with 0 and the maximum)
             out.append(mk("c04_init_a%d_e%d" % (fa, fe), "C04/c04.c", [], dict(D, FIX_NA=fa, FIX_NE=fe), unwind=UW,
                           default_unwind=3, encoded_units=ENC, fp_removal=True, object_bits=12, timeout=3000))
+    if tier == "quick":
+        # three areas are needed for "the third area is judged against a stale predecessor" (seed C04-F): cheap as
+        # long as there are few registers
+        na3 = 3
+        UW3 = dict(UW, vp_build=na3 + 3, vp_desc_wellformed=na3 + 2, ref_area_of=na3 + 2, harness=max(aw, na3) + 3,
+                   register_init=na3 + 2, reg_count_areas=na3 + 2, reg_entry_is_in_memory=na3 + 2,
+                   ra_find_area_by_addr=na3 + 2)
+        for fe in (0, 1):
+            out.append(mk("c04_init_a3_e%d" % fe, "C04/c04.c", [], {"NAREA": 3, "NREG": 3, "AWORDS": aw, "FIX_NA": 3, "FIX_NE": fe},
+                          unwind=UW3, default_unwind=3, encoded_units=ENC, fp_removal=True, object_bits=12, timeout=3000))
     return out
